@@ -239,7 +239,15 @@ func specialTTYMirror(c *specialCtx) {
 		tty := te.NewTTYFrontend(nil, &out)
 		be := &scriptBackend{}
 		fwd := &showCursorSpy{Frontend: tty, show: true}
-		vt := te.VerifNew(fwd, be, te.TextReadModeRune, false)
+		var vt *te.VerifTerm
+		if i%3 == 1 {
+			// the mirror is installed on a terminal that already exists (SetFrontend): both
+			// buffers must talk to it from then on
+			vt = te.VerifNew(&te.EmptyFrontend{}, be, te.TextReadModeRune, false)
+			vt.Terminal().SetFrontend(fwd)
+		} else {
+			vt = te.VerifNew(fwd, be, te.TextReadModeRune, false)
+		}
 		inner := vt.Terminal()
 		tty.SetTerminal(inner)
 		_ = inner.Resize(w, h)
@@ -645,6 +653,17 @@ func specialStreams(c *specialCtx) {
 				c.violation("pty-winsize", fmt.Sprintf("SetSize(w=%d,h=%d): pty reports %d rows %d cols", sz[0], sz[1], rows, cols), sz)
 			}
 		}
+		// directly on the backend: sizes up to what a winsize can hold (no buffers of that size needed)
+		for _, sz := range [][2]int{{100, 4095}, {100, 4096}, {100, 5000}, {8191, 30}, {8192, 30}, {9000, 40}, {65535, 65535}, {300, 65535}} {
+			if err := pb.SetSize(sz[0], sz[1]); err != nil {
+				continue
+			}
+			rows, cols, err := pty.Getsize(slave)
+			c.count(fmt.Sprint("pty-big", sz))
+			if err == nil && (rows != sz[1] || cols != sz[0]) {
+				c.violation("pty-winsize", fmt.Sprintf("SetSize(w=%d,h=%d): pty reports %d rows %d cols", sz[0], sz[1], rows, cols), sz)
+			}
+		}
 		slave.Close()
 	} else {
 		c.st.Samples = append(c.st.Samples, "no PTY available: winsize clause not exercised")
@@ -1000,15 +1019,24 @@ func lockScenario(seed int64) int {
 					return
 				default:
 				}
+				var kept []te.Line
 				term.WithLock(func() {
 					w, h := term.Size()
 					for y := 0; y < h; y++ {
 						_ = term.Line(y)
 						_ = term.ANSILine(y)
-						_ = term.StyledLine(0, w, y)
+						kept = append(kept, term.StyledLine(0, w, y))
 					}
-					_ = term.StyledLines(te.Region{X: 0, Y: 0, X2: w, Y2: h})
+					kept = append(kept, term.StyledLines(te.Region{X: 0, Y: 0, X2: w, Y2: h})...)
 				})
+				// what an accessor returned belongs to the caller: it is used after the lock is gone
+				n := 0
+				for _, l := range kept {
+					n += len(l.PlainTextString())
+				}
+				if n < 0 {
+					return
+				}
 				ops.Add(1)
 			}
 		}(g)
@@ -1312,6 +1340,37 @@ func specialResizeIdle(c *specialCtx) {
 		r := newPrng(seeds[i])
 		cs := genCase(prof, r)
 		cs.Mode = 0
+		{
+			// the read right after a Resize is the one that was measured against the old size: make
+			// it matter (long text with wide characters), and sometimes let the Resize fall into the
+			// gap of a control sequence that arrives in two reads
+			g := &genCtx{r: r, w: cs.W, h: cs.H}
+			var items []Item
+			for _, it := range cs.Items {
+				if it.Kind == "resize" {
+					if r.chance(1, 2) {
+						items = append(items, in("wrap", []byte(pick(r, []string{"\x1b[?7h", "\x1b[?7h", "\x1b[?7l"}))),
+							in("goto", []byte(fmt.Sprintf("\x1b[%d;%dH", 1+r.intn(g.h), 1+r.intn(g.w)))))
+					}
+					if r.chance(1, 3) {
+						// the first part of a sequence; the Resize; the rest
+						seq := pick(r, []string{"\x1b[7G", "\x1b[3d", "\x1b[r", "\x1b[2r", "\x1b[K", "\x1b[5;3H", "\x1b[2J", "\x1b[3C", "\x1b[4B", "\x1b[1;2r", "\x1b[6n", "\x1b[2X"})
+						cut := 1 + r.intn(len(seq)-1)
+						items = append(items, Item{Kind: "in", Hex: hex.EncodeToString([]byte(seq[:cut])), Class: "split-head"}, it,
+							Item{Kind: "in", Hex: hex.EncodeToString([]byte(seq[cut:])), Class: "split-tail"})
+					} else {
+						items = append(items, it)
+					}
+					g.w, g.h = it.W, it.H
+					if r.chance(2, 3) {
+						items = append(items, in("textlong", g.text(it.W-1+r.intn(6), true, false)))
+					}
+					continue
+				}
+				items = append(items, it)
+			}
+			cs.Items = items
+		}
 		be := &gateBackend{ch: make(chan []byte)}
 		fe := newRecFrontend()
 		vt := te.VerifNew(fe, be, te.TextReadModeRune, cs.Grid)
@@ -1363,13 +1422,14 @@ func specialResizeIdle(c *specialCtx) {
 		payload := map[string]any{"case": cs}
 		var hist []string
 		modelRows := map[string]string{}
+		headPending := false // the implementation has read the first part of a sequence the model takes whole
 		check := func(mo modelObs, what string) bool {
 			for k, v := range mo.rows {
 				modelRows[k] = v
 			}
 			o := snapshot()
 			var diffs []string
-			if mo.lines["G"] != o.G {
+			if mo.lines["G"] != o.G && !headPending {
 				diffs = append(diffs, fmt.Sprintf("impl[%s] model[%s]", o.G, mo.lines["G"]))
 			}
 			for _, k := range []string{"M", "A"} {
@@ -1436,6 +1496,12 @@ func specialResizeIdle(c *specialCtx) {
 					hist = hist[len(hist)-12:]
 				}
 				_ = d.send("feed " + hex.EncodeToString(b))
+				if it.Class == "split-head" {
+					// the loop waits inside the sequence; the model takes the sequence as a whole later
+					headPending = true
+					continue
+				}
+				headPending = false
 				consumed := int(be.delivered.Load()) - vt.Buffered()
 				mo, err := d.cmdBlock(fmt.Sprintf("adv %d", consumed))
 				if err != nil {
